@@ -529,48 +529,6 @@ Section Nav.
     pose proof (units_length_le m us). lia.
   Qed.
 
-  (** Stepping back: over an ordinary character the column is subtracted; over a tab or a
-      line break it is re-measured from the line start (hence the first-line condition). *)
-  Theorem previous_position_P k : k <= n ->
-    (forall k', k = S k' -> (nth_error us k' = Some ULb \/ nth_error us k' = Some (UCh Tab)) ->
-                first_line_ok k') ->
-    previous_position m t (Q k) = Ok (match k with 0 => None | S k' => Some (Q k') end).
-  Proof.
-    intros Hk Hok. unfold previous_position. rewrite (split_P k Hk).
-    destruct k as [|k'].
-    - cbn [firstn ctext flat_map rev]. unfold ends_lb. destruct (le m); reflexivity.
-    - destruct (skipn_nth k' ltac:(lia)) as (u & Hn & Hs).
-      rewrite (firstn_snoc_nth k' us u Hn).
-      assert (Hw : wf_units m (firstn k' us ++ u :: skipn (S k') us)).
-      { rewrite <- Hs, firstn_skipn. exact Hwf. }
-      rewrite (ends_lb_units m _ _ _ Hw).
-      pose proof (Pf_S m p0 us k' u Hn) as HP.
-      destruct u as [|c]; cbn [is_lb].
-      + cbn [adv] in HP. unfold nl_pos in HP.
-        assert (Hl : line (Q (S k')) = line (Q k') + 1) by (rewrite HP; reflexivity).
-        assert (Hb : byte (Q (S k')) = byte (Q k') + lb_len m) by (rewrite HP; reflexivity).
-        rewrite Hl, sub_chk_ok by lia. cbn [bind].
-        rewrite (position_in_line_P k'); [reflexivity|lia|apply (Hok k' eq_refl); left; exact Hn
-                                         |cbn [byte]; lia|cbn [line]; lia].
-      + rewrite ctext_app, rev_app_distr. unfold ctext at 1. cbn [flat_map utext rev app].
-        cbn [adv] in HP.
-        destruct c as [| | |l w i].
-        * unfold step_pure in HP.
-          assert (Hl : line (Q (S k')) = line (Q k')) by (rewrite HP; reflexivity).
-          assert (Hb : byte (Q (S k')) = byte (Q k') + 1) by (rewrite HP; reflexivity).
-          rewrite (position_in_line_P k'); [reflexivity|lia|apply (Hok k' eq_refl); right; exact Hn
-                                           |cbn [byte]; lia|cbn [line]; lia].
-        * rewrite HP. unfold step_pure. cbn [col line byte clen cwidth].
-          rewrite sub_chk_ok by lia. cbn [bind]. do 2 f_equal.
-          rewrite <- (pos_eta (Q k')) at 4. f_equal; lia.
-        * rewrite HP. unfold step_pure. cbn [col line byte clen cwidth].
-          rewrite sub_chk_ok by lia. cbn [bind]. do 2 f_equal.
-          rewrite <- (pos_eta (Q k')) at 4. f_equal; lia.
-        * rewrite HP. unfold step_pure. cbn [col line byte clen cwidth].
-          rewrite sub_chk_ok by lia. cbn [bind]. do 2 f_equal.
-          rewrite <- (pos_eta (Q k')) at 4. f_equal; lia.
-  Qed.
-
   Theorem end_position_P k : k <= n -> end_position m t (Q k) = Ok (Q n).
   Proof.
     intros Hk. unfold end_position.
@@ -755,6 +713,87 @@ Section Nav.
   Qed.
 End Nav.
 
+(** Stepping back. Over an ordinary character the base's column is reduced by the width;
+    over a tab or a line break the column is re-measured from the line start, i.e. as if the
+    text started at column 0: the result is canonical w.r.t. [pz] = [p0] with column 0. *)
+Definition zero_col (p : pos) : pos := mkpos (byte p) (line p) 0.
+
+Lemma Pf_zero_col_byte m p0 us k : byte (Pf m (zero_col p0) us k) = byte (Pf m p0 us k).
+Proof. reflexivity. Qed.
+Lemma Pf_zero_col_line m p0 us k : line (Pf m (zero_col p0) us k) = line (Pf m p0 us k).
+Proof. reflexivity. Qed.
+Lemma Pf_zero_col_eq m p0 us k : col p0 = 0 \/ 0 < breaks (firstn k us) ->
+  Pf m (zero_col p0) us k = Pf m p0 us k.
+Proof.
+  intros H. unfold Pf, canon_from, zero_col. cbn [byte line col].
+  destruct (Nat.eqb_spec (breaks (firstn k us)) 0) as [E|E]; [|reflexivity].
+  destruct H as [->|H]; [reflexivity|lia].
+Qed.
+
+Definition remeasured (u : unit) : bool :=
+  match u with ULb | UCh Tab => true | _ => false end.
+
+Section NavBack.
+  Variable m : metrics.
+  Hypothesis Htab : 1 <= tabw m.
+  Variable us : list unit.
+  Hypothesis Hwf : wf_units m us.
+  Variable p0 : pos.
+  Hypothesis Hp0 : byte p0 = 0.
+  Local Notation t := (ctext m us).
+  Local Notation n := (length us).
+  Local Notation Q := (Pf m p0 us).
+  Local Notation Z := (Pf m (zero_col p0) us).
+
+  Theorem previous_position_gen k : k <= n ->
+    previous_position m t (Q k) =
+    Ok (match k with
+        | 0 => None
+        | S k' => Some (match nth_error us k' with
+                        | Some u => if remeasured u then Z k' else Q k'
+                        | None => Q k'
+                        end)
+        end).
+  Proof.
+    intros Hk. unfold previous_position. rewrite (split_P m Htab us Hwf p0 Hp0 k Hk).
+    destruct k as [|k'].
+    - cbn [firstn ctext flat_map rev]. unfold ends_lb. destruct (le m); reflexivity.
+    - destruct (skipn_nth m Htab us Hwf p0 Hp0 k' ltac:(lia)) as (u & Hn & Hs).
+      rewrite (firstn_snoc_nth k' us u Hn), Hn.
+      assert (Hw : wf_units m (firstn k' us ++ u :: skipn (S k') us)).
+      { rewrite <- Hs, firstn_skipn. exact Hwf. }
+      rewrite (ends_lb_units m _ _ _ Hw).
+      pose proof (Pf_S m p0 us k' u Hn) as HP.
+      assert (Hz : byte (zero_col p0) = 0) by exact Hp0.
+      destruct u as [|c]; cbn [is_lb remeasured].
+      + cbn [adv] in HP. unfold nl_pos in HP.
+        assert (Hl : line (Q (S k')) = line (Q k') + 1) by (rewrite HP; reflexivity).
+        assert (Hb : byte (Q (S k')) = byte (Q k') + lb_len m) by (rewrite HP; reflexivity).
+        rewrite Hl, sub_chk_ok by lia. cbn [bind].
+        rewrite (position_in_line_P m Htab us Hwf (zero_col p0) Hz k');
+          [reflexivity|lia|left; reflexivity
+          |cbn [byte]; rewrite Pf_zero_col_byte; lia|cbn [line]; rewrite Pf_zero_col_line; lia].
+      + rewrite ctext_app, rev_app_distr. unfold ctext at 1. cbn [flat_map utext rev app].
+        cbn [adv] in HP.
+        destruct c as [| | |l w i]; cbn [remeasured].
+        * unfold step_pure in HP.
+          assert (Hl : line (Q (S k')) = line (Q k')) by (rewrite HP; reflexivity).
+          assert (Hb : byte (Q (S k')) = byte (Q k') + 1) by (rewrite HP; reflexivity).
+          rewrite (position_in_line_P m Htab us Hwf (zero_col p0) Hz k');
+            [reflexivity|lia|left; reflexivity
+            |cbn [byte]; rewrite Pf_zero_col_byte; lia|cbn [line]; rewrite Pf_zero_col_line; lia].
+        * rewrite HP. unfold step_pure. cbn [col line byte clen cwidth].
+          rewrite sub_chk_ok by lia. cbn [bind]. do 2 f_equal.
+          rewrite <- (pos_eta (Q k')) at 4. f_equal; lia.
+        * rewrite HP. unfold step_pure. cbn [col line byte clen cwidth].
+          rewrite sub_chk_ok by lia. cbn [bind]. do 2 f_equal.
+          rewrite <- (pos_eta (Q k')) at 4. f_equal; lia.
+        * rewrite HP. unfold step_pure. cbn [col line byte clen cwidth].
+          rewrite sub_chk_ok by lia. cbn [bind]. do 2 f_equal.
+          rewrite <- (pos_eta (Q k')) at 4. f_equal; lia.
+  Qed.
+End NavBack.
+
 (** Backward measurement to the start, and the previous line's end, when measurement starts
     at column 0 (a whole document). *)
 Section NavZeroCol.
@@ -771,7 +810,12 @@ Section NavZeroCol.
 
   Lemma prev_P k : k <= n ->
     previous_position m t (Q k) = Ok (match k with 0 => None | S k' => Some (Q k') end).
-  Proof. intros Hk. apply (previous_position_P m Htab us Hwf p0 Hp0 k Hk). intros; left; exact Hc0. Qed.
+  Proof.
+    intros Hk. rewrite (previous_position_gen m Htab us Hwf p0 Hp0 k Hk).
+    destruct k as [|k']; [reflexivity|]. do 2 f_equal.
+    rewrite (Pf_zero_col_eq m p0 us k' (or_introl Hc0)).
+    destruct (nth_error us k') as [u|]; [destruct (remeasured u)|]; reflexivity.
+  Qed.
 
   Lemma start_loop_P fuel k : k <= n -> k < fuel -> start_loop fuel m t (Q k) = Ok (Q 0).
   Proof.
